@@ -347,30 +347,26 @@ def _classify(name, op, a, U, labels):
         if kind_of(d) != "doc":
             labels.add("wrong_type")
             return
-        seen_resolvable = False
-        order = [s for s in U.subtree(d) if kind_of(s) == "sec"]
+        # what will finalize do?  Asked of the library itself, on a twin of the document: links that
+        # resolve against the pre-state may stop doing so once earlier ones are resolved.
+        if any(sec.include is not None for sec in U.subtree(d) if kind_of(sec) == "sec"):
+            labels.add("has_include")
         try:
-            order = list(d.itersections(recursive=True))      # the order finalize works in
-        except Exception:
-            pass
-        for sec in order[:200]:
-            if sec.include is not None:
-                labels.add("has_include")
-                continue
-            if sec.link is None:
-                continue
+            twin = d.clone(keep_id=True)
+            def look(doc):
+                # identities included: a link that is resolved again gets new copies
+                return [(id(s_), s_.is_merged, repr(s_.link), repr(s_.include), repr(s_.definition),
+                         repr(s_.reference), [id(c) for c in s_.sections],
+                         [(id(c), repr(c.values), repr(c.dtype), repr(c.unit), repr(c.definition))
+                          for c in s_.properties]) for s_ in doc.itersections(recursive=True)]
+            before = look(twin)
             try:
-                tgt = sec.get_section_by_path(sec.link)
-                sec.merge_check(tgt, strict=False)            # refused references count as well
-                ok = True
+                twin.finalize()
             except Exception:
-                ok = False
-            if ok:
-                seen_resolvable = True
-            else:
-                labels.add("unresolvable_link_after_resolvable" if seen_resolvable
-                           else "unresolvable_link_first")
-                break
+                labels.add("finalize_fails_half_way" if look(twin) != before
+                           else "finalize_fails_at_once")
+        except Exception:
+            labels.add("finalize_unpredictable")
         return
 
     if name == "set_link":
